@@ -97,7 +97,7 @@ func newSession(svr *Server, conn net.Conn) *Session {
 			Type: RTPUnknownTrans,
 		},
 		authMode: config.RtspAuthMode(),
-		nonce:    security.NewID().MD5(),
+		nonce:    security.NewSecret(),
 		status:   statusInit,
 		stream:   defaultStream,
 		consumer: defaultConsumer,
@@ -518,7 +518,7 @@ func (s *Session) checkAuth(r *Request) (user *auth.User, err error) {
 		if resp2 == response {
 			return user, nil
 		}
-		s.nonce = security.NewID().MD5()
+		s.nonce = security.NewSecret()
 		return nil, errors.New("require legal Authorization field")
 	default: // 无需验证
 		if s.httpAuthed() {
